@@ -40,6 +40,8 @@ type RuneLoop struct {
 	head    *ssa.BasicBlock
 	body    *ssa.BasicBlock
 	rune    ssa.Value
+	index   ssa.Value // byte offset of the current rune
+	param   *ssa.Parameter
 	builder *ssa.Alloc // strings.Builder / bytes.Buffer accumulator
 	accPhi  *ssa.Phi   // slice accumulator
 	flagPhi *ssa.Phi   // boolean "something kept" flag
@@ -51,7 +53,7 @@ func (c *Ctx) AnalyseRuneLoop(fn *ssa.Function, pi int) (*RuneLoop, error) {
 	if fn == nil || pi >= len(fn.Params) {
 		return nil, fmt.Errorf("no such parameter")
 	}
-	rl := &RuneLoop{Fn: fn}
+	rl := &RuneLoop{Fn: fn, param: fn.Params[pi]}
 	var nx *ssa.Next
 	for _, b := range fn.Blocks {
 		for _, in := range b.Instrs {
@@ -75,6 +77,8 @@ func (c *Ctx) AnalyseRuneLoop(fn *ssa.Function, pi int) (*RuneLoop, error) {
 			switch ex.Index {
 			case 0:
 				okV = ex
+			case 1:
+				rl.index = ex
 			case 2:
 				rl.rune = ex
 			}
@@ -418,4 +422,99 @@ func (rl *RuneLoop) cond(v ssa.Value, lo, hi int64, nonEmpty bool, prev, cur *ss
 		}
 	}
 	return false, false, fmt.Sprintf("condition %s = %s (block %d) is neither a comparison of the rune with a constant nor an emptiness test of the accumulator", v.Name(), v.String(), cur.Index)
+}
+
+// CheckReturns decides what the scanning function hands back: every return yields (the accumulated text, rest) where
+// the accumulated text is the accumulator's content unchanged and rest is the empty constant when the loop ran to the
+// end of the input, or the input from the offset of the stopping rune to its end — optionally with trailing
+// characters trimmed (which ones is the business of the trim rule) — when a rune stopped the scan.
+func (rl *RuneLoop) CheckReturns() (n int, bad string, at ssa.Instruction) {
+	fn := rl.Fn
+	exit := rl.head.Succs[1]
+	for _, b := range fn.Blocks {
+		ret, ok := b.Instrs[len(b.Instrs)-1].(*ssa.Return)
+		if !ok {
+			continue
+		}
+		n++
+		vals := ReturnValues(ret)
+		if len(vals) != 2 {
+			return n, "the scanning function does not return (number, unit)", ret
+		}
+		// nothing to scan: ("", "") under a test that the input is empty
+		if s0, c0 := constString(vals[0]); c0 && s0 == "" {
+			if s1, c1 := constString(vals[1]); c1 && s1 == "" && rl.underEmptyInput(b) {
+				continue
+			}
+		}
+		// the number
+		okAcc := false
+		switch x := vals[0].(type) {
+		case *ssa.Call:
+			if f := x.Call.StaticCallee(); f != nil && f.Name() == "String" && rl.builder != nil && len(x.Call.Args) == 1 && x.Call.Args[0] == ssa.Value(rl.builder) {
+				okAcc = true
+			}
+		case *ssa.Convert:
+			if rl.accPhi != nil && x.X == ssa.Value(rl.accPhi) {
+				okAcc = true
+			}
+		}
+		if !okAcc {
+			return n, "the number returned is not the accumulated digits unchanged", ret
+		}
+		// the rest
+		if s, isC := constString(vals[1]); isC {
+			switch {
+			case s != "":
+				return n, fmt.Sprintf("a constant unit %q is returned", s), ret
+			case !(exit == b || exit.Dominates(b)) || len(exit.Preds) != 1:
+				return n, "an empty unit is returned although a rune stopped the scan (the rest of the input is dropped)", ret
+			}
+			continue
+		}
+		rest := vals[1]
+		if call, ok := rest.(*ssa.Call); ok {
+			if f := call.Call.StaticCallee(); f != nil {
+				switch f.String() {
+				case "strings.TrimRight", "strings.TrimSuffix", "strings.TrimSpace", "strings.Trim":
+					rest = call.Call.Args[0]
+				}
+			}
+		}
+		sl, ok := rest.(*ssa.Slice)
+		if !ok || sl.X != ssa.Value(rl.param) || sl.Low != rl.index || sl.High != nil || sl.Max != nil {
+			return n, "the unit returned when a rune stops the scan is not the input from that rune's offset to its end", ret
+		}
+		if !(rl.body == b || rl.body.Dominates(b)) {
+			return n, "the rest of the input is returned outside the loop body, where the offset is not that of the stopping rune", ret
+		}
+	}
+	return n, "", nil
+}
+
+// underEmptyInput: b is only reached through the true edge of `input == ""` / `len(input) == 0`.
+func (rl *RuneLoop) underEmptyInput(b *ssa.BasicBlock) bool {
+	for _, blk := range rl.Fn.Blocks {
+		iff, ok := blk.Instrs[len(blk.Instrs)-1].(*ssa.If)
+		if !ok {
+			continue
+		}
+		cmp, ok := iff.Cond.(*ssa.BinOp)
+		if !ok || cmp.Op != token.EQL {
+			continue
+		}
+		empty := false
+		if s, isC := constString(cmp.Y); isC && s == "" && cmp.X == ssa.Value(rl.param) {
+			empty = true
+		}
+		if k, isK := constInt(cmp.Y); isK && k == 0 {
+			if a, isLen := IsLenOf(cmp.X); isLen && a == ssa.Value(rl.param) {
+				empty = true
+			}
+		}
+		if t := blk.Succs[0]; empty && len(t.Preds) == 1 && (t == b || t.Dominates(b)) {
+			return true
+		}
+	}
+	return false
 }
